@@ -31,15 +31,19 @@ PerLong(t) == CASE t.k = "octstr" -> Len(t.v) >= 16384
                 [] t.k = "choice" -> PerLong(t.v)
                 [] t.k = "open" -> PerLong(t.v) \/ Len(PerEncode(t.v)) >= 16384
                 [] OTHER -> FALSE
-C03Verdict(e) ==
-   IF ~PerValid(e.tree)
+\* what the specification says about the value of an Enc event, computed once per event (the Next action binds it)
+EncFacts(e) == LET valid == PerValid(e.tree) IN
+               [valid |-> valid, exp |-> IF valid THEN PerEncode(e.tree) ELSE <<>>, inRoot |-> valid /\ PerInRoot(e.tree),
+                long |-> valid /\ PerLong(e.tree)]
+C03Verdict(e, f) ==
+   IF ~f.valid
    THEN (IF e.err /\ ~e.panic THEN Ok ELSE No("C03: a value outside its constraints was put on the wire instead of being refused"))
-   ELSE IF e.err THEN (IF PerInRoot(e.tree) /\ ~e.panic THEN No("C03: a value within its constraints was refused (error or panic)")
+   ELSE IF e.err THEN (IF f.inRoot /\ ~e.panic THEN No("C03: a value within its constraints was refused (error or panic)")
                        ELSE IF e.panic THEN No("C03: the encoder panicked") ELSE Ok)   \* extension values may be refused
-   ELSE LET exp == PerEncode(e.tree) IN
+   ELSE LET exp == f.exp IN
         IF e.bytes # exp THEN No("C03: encoding differs from X.691: expected " \o Str(exp) \o " got " \o Str(e.bytes)) ELSE Ok
-C04Verdict(e) ==
-   IF ~PerValid(e.tree) \/ e.err \/ PerLong(e.tree) THEN Ok
+C04Verdict(e, f) ==
+   IF ~f.valid \/ e.err \/ f.long THEN Ok
    ELSE IF ~e.dec.done \/ e.dec.err THEN No("C04: the encoding was not accepted by the decoder")
    ELSE IF PerNorm(e.dec.tree) # PerNorm(e.tree) THEN No("C04: decoded value differs from the encoded value")
    ELSE IF e.dec.reErr \/ e.dec.reBytes # e.bytes THEN No("C04: re-encoding the decoded value does not reproduce the bytes")
@@ -58,15 +62,15 @@ Init == l = 1 /\ bad = 0
 Next == /\ l <= Len(Trace)
         /\ LET e == Trace[l] IN
              IF e.ev = "Enc"
-             THEN LET r3 == C03Verdict(e) r4 == C04Verdict(e) IN
+             THEN \E f \in {EncFacts(e)} : \E r3 \in {C03Verdict(e, f)}, r4 \in {C04Verdict(e, f)} :
                   /\ Report(l, e, r3) /\ Report(l, e, r4)
                   \* second pass request: where the library's bytes are not the reference encoder's (or it refused), the reference
                   \* encoding itself is fed to the real decoder (event Dec); values using an extension of an extensible constraint, which the
                   \* library may refuse to encode, are left out as in C03
-                  /\ (IF PerValid(e.tree) /\ PerInRoot(e.tree) /\ ~PerLong(e.tree) /\ (e.err \/ e.bytes # PerEncode(e.tree))
-                      THEN PrintT("SPECBYTES " \o Str(e.id) \o " " \o Str(PerEncode(e.tree))) ELSE TRUE)
+                  /\ (IF f.valid /\ f.inRoot /\ ~f.long /\ (e.err \/ e.bytes # f.exp)
+                      THEN PrintT("SPECBYTES " \o Str(e.id) \o " " \o Str(f.exp)) ELSE TRUE)
                   /\ bad' = bad + (IF r3.ok THEN 0 ELSE 1) + (IF r4.ok THEN 0 ELSE 1)
-             ELSE LET r == Explain(e) IN
+             ELSE \E r \in {Explain(e)} :
                   /\ Report(l, e, r)
                   /\ bad' = bad + (IF r.ok THEN 0 ELSE 1)
         /\ l' = l + 1
